@@ -307,7 +307,12 @@ mpn_mulmod_bnm1 (mp_ptr rp, mp_size_t rn, mp_srcptr ap, mp_size_t an,
 
   TMP_MARK;
 
-  if (an < rn)
+  /* mpn_mulmod_2expm1 masks the middle limb of each operand for the duration
+     of the call when the size is odd (its k != 0 case), so operands of odd
+     size rn must be copies as well: {ap,an} and {bp,bn} are the caller's
+     inputs (the modulus of mpz_powm via mpn_redc_n, the operand of
+     mpn_binvert), possibly read-only or read by other threads */
+  if (an < rn || (rn & 1))
   {
      tp = TMP_ALLOC_LIMBS(rn);
      MPN_COPY(tp, ap, an);
@@ -315,7 +320,7 @@ mpn_mulmod_bnm1 (mp_ptr rp, mp_size_t rn, mp_srcptr ap, mp_size_t an,
      ap = tp;
   }
 
-  if (bn < rn)
+  if (bn < rn || (rn & 1))
   {
      tp = TMP_ALLOC_LIMBS(rn);
      MPN_COPY(tp, bp, bn);
